@@ -486,3 +486,45 @@ func (g *gen) ccCases(n int) []ccCase {
 	}
 	return out
 }
+
+// ---------------------------------------------------------------- integers as JSON text (round "proofs 2")
+
+type jiCase struct {
+	Z     string `json:"z"`   // decimal
+	Enc   string `json:"enc"` // json.Marshal(int64) (hex)
+	In    string `json:"in"`  // text fed to json.Unmarshal(.., &int64) (hex)
+	DecOK bool   `json:"dec_ok"`
+	Dec   string `json:"dec"` // decimal
+}
+
+func (g *gen) jiCases(n int) []jiCase {
+	var out []jiCase
+	add := func(z int64, in []byte) {
+		enc, _ := json.Marshal(z)
+		if in == nil {
+			in = enc
+		}
+		c := jiCase{Z: fmt.Sprint(z), Enc: hex.EncodeToString(enc), In: hex.EncodeToString(in)}
+		var v int64
+		if err := json.Unmarshal(in, &v); err == nil {
+			c.DecOK, c.Dec = true, fmt.Sprint(v)
+		}
+		out = append(out, c)
+	}
+	for _, z := range []int64{0, 1, -1, 9, 10, -10, 99, 100, 1 << 53, -(1 << 53) - 1, 1<<63 - 1, -(1 << 63), 1234567890123} {
+		add(z, nil)
+	}
+	for i := 0; i < n; i++ {
+		z := g.r.Int63() - g.r.Int63()
+		if g.r.Intn(2) == 0 {
+			z = int64(g.r.Intn(2001) - 1000)
+		}
+		add(z, nil)
+	}
+	// ill-formed or non-integer numerals (leading zeros, whitespace and values outside int64 are not modelled)
+	for _, s := range []string{"-0", "1.5", "1e2", "1E2", "", "abc", "+1", "--1", "-", "1-", "1 2", "0x10", "1,", "null1", "\"1\"", "1.0", "-1.0e0"} {
+		add(0, []byte(s))
+	}
+	g.count(fmt.Sprintf("json-int:%d", len(out)))
+	return out
+}
